@@ -69,6 +69,9 @@ func (g *Generator) Generate(dict *dictionary.Dictionary) ([]byte, error) {
 		if attr.FlagHasTag.Valid && attr.FlagHasTag.Bool && !(attr.Type == dictionary.AttributeOctets || attr.Type == dictionary.AttributeString || attr.Type == dictionary.AttributeInteger) {
 			invalid = true
 		}
+		if attr.HasTag() && (attr.Type == dictionary.AttributeOctets || attr.Type == dictionary.AttributeString) {
+			baseImports["errors"] = struct{}{}
+		}
 
 		switch attr.Type {
 		case dictionary.AttributeString:
@@ -176,6 +179,9 @@ func (g *Generator) Generate(dict *dictionary.Dictionary) ([]byte, error) {
 			}
 			if attr.FlagHasTag.Valid && attr.FlagHasTag.Bool && !(attr.Type == dictionary.AttributeOctets || attr.Type == dictionary.AttributeString || attr.Type == dictionary.AttributeInteger) {
 				invalid = true
+			}
+			if attr.HasTag() && (attr.Type == dictionary.AttributeOctets || attr.Type == dictionary.AttributeString) {
+				baseImports["errors"] = struct{}{}
 			}
 
 			switch attr.Type {
